@@ -33,7 +33,7 @@ def run_one(sid, seed, slot):
         if a.returncode != 0:
             a = sh("git -C %s apply -3 %s" % (wt, os.path.join(d, "patch.diff")))
         if a.returncode != 0:
-            res.update(outcome="PATCH-DOES-NOT-APPLY", detail=a.stdout[-400:])
+            res.update(outcome=("NEUTRALISED-patch-no-longer-applies" if meta.get("neutralised_by") else "PATCH-DOES-NOT-APPLY"), detail=a.stdout[-400:])
             return res
         if not os.path.isdir(lean):
             sh("cp -a %s %s" % (os.path.join(HERE, "lean"), lean))
@@ -117,7 +117,7 @@ def main():
         for r in allr:
             f.write("| %s | %s | %s | %s (%s) | %s | %s |\n" % (r["seed_id"], r.get("property"), r.get("outcome"), r.get("violation_lines"),
                                                             r.get("with_found_input"), ", ".join("%s×%d" % kv for kv in sorted((r.get("layers") or {}).items())), r.get("wall_s")))
-    bad = [r["seed_id"] for r in results if r.get("outcome") not in ("CAUGHT-with-input", "NEUTRALISED-silent-as-it-should-be", "NEUTRALISED-pinned-shape-alarm-no-input")]
+    bad = [r["seed_id"] for r in results if r.get("outcome") not in ("CAUGHT-with-input", "NEUTRALISED-silent-as-it-should-be", "NEUTRALISED-pinned-shape-alarm-no-input", "NEUTRALISED-patch-no-longer-applies")]
     print("not caught with a found input:", bad)
     shutil.rmtree(SCR, ignore_errors=True) if "--keep" not in sys.argv else None
     return 0
